@@ -1,6 +1,7 @@
 package utils
 
 import (
+	"bytes"
 	"fmt"
 	"io"
 )
@@ -136,17 +137,26 @@ func ReadUint32(rd io.Reader) (uint32, error) {
 	return val, nil
 }
 
-// ReadNBytes reads n bytes from the reader
-func ReadNBytes(n int, rd io.Reader) ([]byte, error) {
-	var b []byte = make([]byte, n)
-	num, err := rd.Read(b)
+// maxPrealloc is the largest buffer ReadNBytes allocates before any data has arrived.
+const maxPrealloc = 4096
 
-	// if num is correct, we are not interested in io.EOF errors
-	if num == n {
-		err = nil
+// ReadNBytes reads exactly n bytes from the reader.
+// It returns io.EOF if no byte could be read and io.ErrUnexpectedEOF if the
+// reader ended after some, but not all bytes.
+func ReadNBytes(n int, rd io.Reader) ([]byte, error) {
+	if n <= maxPrealloc {
+		var b []byte = make([]byte, n)
+		_, err := io.ReadFull(rd, b)
+		return b, err
 	}
 
-	return b, err
+	// don't trust a (possibly corrupt) length: let the buffer grow with the data
+	var bf bytes.Buffer
+	num, err := io.CopyN(&bf, rd, int64(n))
+	if err == io.EOF && num > 0 {
+		err = io.ErrUnexpectedEOF
+	}
+	return bf.Bytes(), err
 }
 
 // ErrUnexpectedEOF is returned, when an unexspected end of file is reached.
